@@ -334,6 +334,7 @@ def gen_ops(tier, rng):
 
 def gen_ops_all(tier, rng):
     yield from gen_ops(tier, rng)
+    yield from gen_ops_collisions(tier, rng)
     # products of multi-term operands whose large exponent sits in a NON-leading indeterminate (q1, q2), q0 exponents small
     for _ in range(count(tier, 250, 4000)):
         D = rng.choice([2, 2, 3])
@@ -353,6 +354,50 @@ def gen_ops_all(tier, rng):
         if rng.random() < 0.5:
             x, y = y, x
         yield {"D": D, "op": rng.choice(["mul", "mul", "mul_function"]), "x": x, "y": y, "var": k, "args": [1] * D, "dtype": "float64" if floats else "int64"}
+
+
+def _radix_collision(rng, D, M, W):
+    """two different exponent tuples with entries <= M whose readings as numbers in base M+1 differ by a multiple of W"""
+    B = M + 1
+    for _ in range(400):
+        t1 = [rng.randrange(B) for _ in range(D)]
+        t1[rng.randrange(D)] = M
+        code = 0
+        for e in t1:
+            code = code * B + e
+        for k in (rng.choice([1, 1, 2, 3]), 1):
+            for sign in (1, -1):
+                c2 = code + sign * k * W
+                if 0 <= c2 < B ** D:
+                    digits = []
+                    for _ in range(D):
+                        digits.append(c2 % B)
+                        c2 //= B
+                    t2 = digits[::-1]
+                    if t2 != t1:
+                        return t1, t2
+    return None
+
+
+def gen_ops_collisions(tier, rng):
+    """operands whose exponent tuples would collide if a tuple were ever replaced by ONE machine number (the tuple read in base
+    max+1, wrapped at 2**32 / 2**31 / 2**16): distinct tuples must stay distinct terms"""
+    for _ in range(count(tier, 60, 600)):
+        D = rng.choice([2, 3, 3])
+        W = rng.choice([2 ** 32, 2 ** 32, 2 ** 31, 2 ** 16])
+        M = rng.choice([65535, 70000, 99999] if D == 2 and W > 2 ** 16 else [300, 1023, 2047, 4095, 1625] if W > 2 ** 16 else [255, 300, 1000, 40])
+        if (M + 1) ** D <= W:
+            continue
+        pair = _radix_collision(rng, D, M, W)
+        if pair is None:
+            continue
+        t1, t2 = pair
+        extra = [[rng.randrange(3) for _ in range(D)] for _ in range(rng.randint(0, 2))]
+        xr = [list(t) for t in sorted({tuple(t) for t in [t1] + extra[:1]})]
+        yr = [list(t) for t in sorted({tuple(t) for t in [t2] + extra[1:]})]
+        yield {"D": D, "op": rng.choice(["add", "sub", "align_exponents", "align_polynomials", "equal", "mul"]),
+               "x": {"exponents": xr, "coefficients": [rng.choice([-2, 1, 3, 5]) for _ in xr]},
+               "y": {"exponents": yr, "coefficients": [rng.choice([-1, 2, 7, 11]) for _ in yr]}, "var": 0, "args": [1] * D}
 
 
 def model_of(t, names):
@@ -389,7 +434,9 @@ def scalar(m):
             "align_exponents, align_polynomials, derivative, evaluation at 1/-1/0 full and partial (partial: exponents of the remaining indeterminates <= 40), pickle, raw view and back, dict "
             "construction, indexing, ==); exact model; exceptions accepted only when an exponent >= 55000 is involved; plus 250 (4000) "
             "products of 2-4-term operands in 2-3 indeterminates where an exponent 69..400 (mostly 256..324) sits in q1 or q2 while all "
-            "q0 exponents are <= 4, either operand order, int64 and float64 coefficients, x*y and numpoly.multiply")
+            "q0 exponents are <= 4, either operand order, int64 and float64 coefficients, x*y and numpoly.multiply; plus 60 (600) operand "
+            "pairs whose exponent tuples, read as numbers in base max+1, differ by a multiple of 2**32 / 2**31 / 2**16 (they would "
+            "merge if a tuple were ever replaced by one machine number)")
 def large_ops(inp):
     import numpoly
     install_poison()
